@@ -31,9 +31,9 @@ demo_cmd = "cargo test --offline -p sas-lexer --test seed_demo " + " ".join(extr
 rc1, o1 = sh(demo_cmd + " 2>&1 | tail -25")
 meta["demo_with_change"] = {"cmd": demo_cmd, "failed": "FAILED" in o1 or "error" in o1.lower() and "test result: ok" not in o1, "tail": o1.strip().splitlines()[-6:]}
 # 3. demo without the change
-sh("git stash push -- crates ':!crates/sas-lexer/tests/seed_demo.rs'")
+sh(f"git apply -R {out}/patch.diff")
 rc2, o2 = sh(demo_cmd + " 2>&1 | tail -8")
-sh("git stash pop")
+sh(f"git apply {out}/patch.diff")
 meta["demo_without_change"] = {"passed": "test result: ok" in o2 and "FAILED" not in o2, "tail": o2.strip().splitlines()[-3:]}
 meta["confirmed"] = bool(suite_ok and meta["demo_with_change"]["failed"] and meta["demo_without_change"]["passed"])
 # 4. run the property's checks against the scratch worktree (the change is applied there); /repo is never touched
